@@ -33,7 +33,7 @@ def items(tier):
         for mode in ("amt", "rel", "both"):
             if mode == "both" and n > b["active_set_both_max"]:
                 continue
-            out.append(dict(kind="activeset", id="activeset-n%d-%s" % (n, mode), n=n, mode=mode))
+            out.append(dict(kind="activeset", id="activeset-n%d-%s" % (n, mode), n=n, mode=mode, timeout=(400 if tier == "quick" else 1500)))
     ns = b["scaling_n"] if isinstance(b["scaling_n"], list) else [b["scaling_n"]]
     for n in ns:
         for which in ("max", "min"):
@@ -268,6 +268,10 @@ SCEN = {"activeset": sc_activeset, "scaling": sc_scaling, "bound-softminmax": sc
 
 
 def run_item(cfg, tier):
+    # tolerances of np.isclose / np.allclose are modelled as the inequalities NumPy evaluates (not as "exactly equal"):
+    # the value band of an active set is defined by exact comparisons (forked worker: no leak into other harnesses)
+    from symx import npshim
+    npshim.EXACT_CLOSE = False
     mp = 2500 if cfg["kind"] == "activeset" else 200
     return symbolic_run(SCEN[cfg["kind"]], cfg, tier, max_paths=mp)
 
